@@ -17,9 +17,15 @@ bookkeeping of MP4Tags.save (Model/Container/Mp4.lean) on a real file.
          `MediaClear` for windows of n (default 16) bytes.  Without off/old the model's
          own region is used; with `after` (the real file after the real save) the new bytes are
          taken from it: after[off : off + old + (len(after) - len(data))].
+  mp4 op=c04 kind=<load|save|addsave|delete|savetags> mem=<0|1> data=<hex> [ilst=<hex>] [pad=<default|n>]
+      -> load: ok tags=<0|1> | err <PyErr>;  the others: ok|err <PyErr> data=<hex>
+         `load` / `openSave` / `openDelete` / `saveTags` of the model (Props/C04_Mp4): MP4(fileobj), then
+         save / add_tags+save / delete through it (savetags: MP4Tags.save into this file without loading it);
+         mem=1: the file object is an io.BytesIO, mem=0: a real file; ilst = Atom.render(b"ilst", values)
 -/
 import MutagenModel.Model.Container.Mp4
 import Driver.Util
+import Driver.FlacC
 namespace Driver
 open Mutagen Mutagen.Mp4C
 
@@ -57,7 +63,7 @@ def mp4Op (a : Args) : String :=
     | .error e => s!"err {e.name}"
     | .ok atoms =>
       match regionOf atoms with
-      | none => "err key"
+      | none => "err mutagen"
       | some R => s!"ok off={R.offset} old={R.length} parents={showNatList (R.parents.map (·.offset))}"
   | "save" =>
     let f := a.bytes "data"
@@ -65,7 +71,7 @@ def mp4Op (a : Args) : String :=
     | .error e => s!"err {e.name}"
     | .ok atoms =>
       match regionOf atoms with
-      | none => "err key"
+      | none => "err mutagen"
       | some R =>
         let off := a.nat "off" R.offset
         let old := a.nat "old" R.length
@@ -78,6 +84,20 @@ def mp4Op (a : Args) : String :=
         let head := match r.1 with | none => "ok" | some e => s!"err {e.name}"
         let cov := covered f atoms R.parents off old ((new.length : Int) - old) (a.nat "n" 16)
         s!"{head} off={off} old={old} newlen={new.length} covered={if cov then 1 else 0} data={hexField r.2}"
+  | "c04" =>
+    let f := a.bytes "data"
+    let mem := a.nat "mem" 1 == 1
+    let out (r : Option PyErr × Bytes) : String :=
+      (match r.1 with | none => "ok" | some e => s!"err {e.name}") ++ s!" data={hexField r.2}"
+    match a.str "kind" with
+    | "load" => match load f with
+      | .ok b => s!"ok tags={if b then 1 else 0}"
+      | .error e => s!"err {e.name}"
+    | "save" => out (openSave mem f false (a.bytes "ilst") (padOf a))
+    | "addsave" => out (openSave mem f true (a.bytes "ilst") (padOf a))
+    | "delete" => out (openDelete mem f)
+    | "savetags" => out (saveTags mem f (a.bytes "ilst") (padOf a))
+    | _ => "bad-op"
   | _ => "bad-op"
 
 end Driver
